@@ -126,7 +126,7 @@ PLAN["C12"] = dict(
     explanation="registry invariant (every entry stored under its own name, ids injective) preserved by handle_host_id / handle_module_id; acceptance implies no id or name clash with any registered "
                 "item (the search loops' normal exit), each error is raised only when the corresponding clash exists, range errors exactly outside the permitted ranges (with the core_defs / "
                 "import_coredefs exemptions); validate_msg_id likewise for messages, signals and reserved ids")
-from pyvc import tables as _tables, detcheck as _detcheck
+from pyvc import tables as _tables, detcheck as _detcheck, hashcheck as _hashcheck
 PLAN["C04"] = dict(
     functions=[], extra=[_tables.check], level="other",
     level_text="PARTIAL. Only clause T1 of the design is decided: the six hand-written native type tables (parser supported_types, Parser.get_ctype_cls, python type_map and "
@@ -146,13 +146,22 @@ PLAN["C16"] = dict(
     assumptions=["library calls (ruamel.yaml, black, hashlib, textwrap, re, pathlib) are deterministic functions of their arguments", "dicts iterate in insertion order (language guarantee)"],
     explanation="determinism as a frame condition over every compiler function; currency of core_defs.py as a ground fact; combined-YAML clause not decided")
 
+PLAN["C13"] = dict(
+    functions=[_c for _c in CLIENT_C08 if _c.endswith("Client.send_message")], sidecars=CLIENT_SIDECARS, extra=[_hashcheck.check], level="other",
+    level_text="PARTIAL, two deciders. (1) Template contract on Parser.handle_message_def / handle_signal / handle_struct: the stored hash is sha256 of a text whose template - computed from the real AST on "
+               "every run by abstract evaluation of the string-building statements - depends on nothing but name, id and the (field name, type text) pairs in document order, contains each of them "
+               "verbatim on every branch, and parses uniquely (separator after every element outside the element's lexical class), so equal element lists give equal hashes anywhere and different lists "
+               "give different hashed texts; the id hashed is the id registered; all six emit sites of the four back ends print hash[:8]. This is a syntactic template analysis, not an SMT proof; "
+               "constructs outside its language are reported undecided. (2) Client.send_message stamps header.version = msg_data.type_hash: postcondition proved by pyvc/z3 on the real function. "
+               "Not decided: collision-freedom of sha256 / its 32-bit prefix; dedent (assumed identity on texts starting at column 0); field-list reuse hashes the list's name only (known limitation, DESIGN 8 #18).",
+    technique="contract-based: template postcondition on the three hash-building handlers decided by abstract evaluation of the real AST (no SMT), emit-site obligations, and a z3-discharged postcondition of Client.send_message",
+    assumptions=ENV_ASSUMPTIONS[:1] + CLIENT_ASSUMPTIONS,
+    explanation="hash = sha256(template(name, id, ordered fields)); template depends on and only on those elements and parses uniquely; back ends print the same 8 hex digits; send_message stamps it")
+
 NOT_APPLICABLE = {
     "C10": "not decided: the round trip goes through json.dumps/json.loads, ctypes reflection over _fields_ of arbitrary generated classes and float repr; the string/float theories needed (float <-> shortest-repr "
            "text, JSON escaping) are outside what the z3/cvc5 encodings built here can discharge, and a bounded CrossHair run would not count as proved. The defect found by reading (stale bytes after "
            "NUL in char arrays) was repaired under C09/C10 (see known_findings.json).",
-    "C13": "not decided as a whole: the central obligation (hash == sha256 of a canonical text that is an injective function of name, id and field list) needs the free-monoid template equality and the "
-           "unique-parse lemma over strings (DESIGN 2.5), which were not built. The last clause (senders stamp header.version = type_hash) IS proved, as a postcondition of Client.send_message inside the C08/C02 "
-           "runs (tag C13), and the emitters' 8-hex-digit prefix is read off one parser field; neither is claimed as a check of C13.",
     "C15": "not decided: the property is about generated C / JavaScript / MATLAB / Python text loading in its language; it needs reader models of four target languages (DESIGN 2.5 Emit domain), not built. "
            "Known emission-order defects (alias of struct, struct with message field, JS Array.fill) were reproduced by hand in phase 1 and are described in DESIGN 8; they are not checked mechanically.",
     "C17": "not applicable to this family as built: the property quantifies over interleavings of the recording thread and the writer thread; the verifier is sequential and the rely/guarantee pass planned "
